@@ -76,6 +76,38 @@ def frac_of(v):
     return Fraction(float.fromhex(v)) if isinstance(v, str) else Fraction(v)
 
 
+HUGE = Fraction(2) ** 2000          # stands for +infinity in the exact model (above every bound and every double)
+
+
+def nonfinite(v):
+    """'nan' | 'inf' | '-inf' | None for a scalar value given as hex-float text"""
+    if not isinstance(v, str):
+        return None
+    try:
+        x = float.fromhex(v)
+    except ValueError:
+        return "nan"
+    if x != x:
+        return "nan"
+    if x in (float("inf"), float("-inf")):
+        return "inf" if x > 0 else "-inf"
+    return None
+
+
+def model_fraction(v):
+    """the rational handed to the exact model for a scalar value: the double itself; +-infinity as +-2^2000;
+    NaN (inside no range, neither positive nor non-negative) as -1: every documented scalar cell has a lower
+    bound >= 0, so -1 fails exactly the checks NaN fails"""
+    nf = nonfinite(v)
+    if nf == "nan":
+        return Fraction(-1)
+    if nf == "inf":
+        return HUGE
+    if nf == "-inf":
+        return -HUGE
+    return frac_of(v)
+
+
 def bits(z):
     return ("-" if z < 0 else "") + bin(abs(z))[2:]
 
@@ -138,6 +170,73 @@ def _trunc(f):
     return int(f) if f >= 0 else -int(-f)
 
 
+def eval_bexpr_f64(b, N, D):
+    """the bound expression as the C++ evaluates it: int op int in int, anything else in binary64 -> int or float.
+    Only parameter-free expressions (the two computed real bounds 3.0 / N and (N - 1) / 3.0 are of this kind);
+    cross-checked against the table Coq evaluates with primitive floats (load_float_table)."""
+    if b == "N":
+        return N
+    if b == "D":
+        return D
+    if "i" in b:
+        return parse_bits(b["i"])
+    if "r" in b:
+        return parse_bits(b["r"][0]) / parse_bits(b["r"][1])
+    if "t" in b:
+        x = eval_bexpr_f64(b["t"], N, D)
+        return int(x)
+    for op in "+-*/":
+        if op in b:
+            x, y = (eval_bexpr_f64(t, N, D) for t in b[op])
+            if isinstance(x, int) and isinstance(y, int):
+                if op == "/":
+                    return _trunc(Fraction(x, y))
+                return x + y if op == "+" else (x - y if op == "-" else x * y)
+            x, y = float(x), float(y)
+            return x + y if op == "+" else (x - y if op == "-" else (x * y if op == "*" else x / y))
+    raise ValueError("bexpr " + repr(b))
+
+
+DOC = None      # the documented table, set by load_tables (model_line needs it: see exactify)
+
+
+def computed_bounds(m, N):
+    """[(keyword, exact bound, its binary64 evaluation)] for the real-valued documented cells of method m whose
+    bound is not itself a double"""
+    out = []
+    if DOC is None or m is None:
+        return out
+    for gs, c in cells_of(DOC, m):
+        if c["ty"] != "S":
+            continue
+        for bnd in (c["lo"], c["hi"]):
+            if bnd is None:
+                continue
+            try:
+                ex = Fraction(eval_bexpr(bnd[1], N, FEATURE_DIM, {}))
+                fl = eval_bexpr_f64(bnd[1], N, FEATURE_DIM)
+                if isinstance(fl, float) and fl == fl and Fraction(fl) != ex:
+                    out.append((c["kw"], ex, fl))
+            except (ZeroDivisionError, ValueError, OverflowError, TypeError, KeyError):
+                continue
+    return out
+
+
+def exactify(case, kw, v):
+    """the rational the exact model gets for scalar keyword kw = v.  The documentation writes the computed bounds as
+    double expressions (3.0 / N, (N - 1) / 3.0): the double that IS the binary64 value of such a bound is the bound,
+    so it is handed over as the exact bound.  Every other double is handed over as it is: by
+    Properties_C14.computed_bound_points_binary64 the exact bound lies strictly between the two neighbours of that
+    double, so no other double is classified differently by the exact and by the binary64 reading."""
+    f = model_fraction(v)
+    if nonfinite(v):
+        return f
+    for k, ex, fl in computed_bounds(selected_method(case), case["N"]):
+        if k == kw and Fraction(fl) == f:
+            return ex
+    return f
+
+
 class _R(Fraction):
     """a real (double-typed) value: distinguishes 3.0 from 3"""
     pass
@@ -160,7 +259,77 @@ def load_tables(ctx, mexe):
             t["defaults"] = o["defaults"]
     if len(doc["methods"]) != N_METHODS:
         raise vlib.BuildError("model driver did not dump the documented table: " + r.err[-400:])
+    global DOC
+    DOC = doc
     return doc, gen
+
+
+def load_float_table(ctx, nmax):
+    """{N: row} for 1 <= N <= nmax from Validate_Float_Points.float_table, evaluated NOW by coqc (vm_compute over
+    Coq's primitive floats) in the scratch directory; row = the binary64 values of 3.0 / N and (N - 1) / 3.0, the
+    verdicts of the documented binary64 check on (next_down f, f, next_up f) for both, the binary64 landmark count
+    int(N * point) at the three landmark_ratio points.  Python's own float arithmetic must agree with it."""
+    import math
+    import re
+    import subprocess
+    d = os.path.join(ctx.build, "float_table")
+    os.makedirs(d, exist_ok=True)
+    chunks = [(a, min(1000, nmax - a + 1)) for a in range(1, nmax + 1, 1000)]
+    src = ["From Coq Require Import ZArith List.", "Import ListNotations.",
+           "From TK Require Import Validate_Float_Points.", "Local Open Scope Z_scope.",
+           "Set Printing Depth 100000000.", "Set Printing Width 200."]
+    for i, (a, n) in enumerate(chunks):
+        src.append('Redirect "ft_%02d" Eval vm_compute in float_table %d %d.' % (i, a, n))
+    open(os.path.join(d, "C14_float_table.v"), "w").write("\n".join(src) + "\n")
+    try:
+        p = subprocess.run(["coqc", "-Q", os.path.join(ctx.verif, "coq"), "TK", "-w", "-all", "C14_float_table.v"],
+                           cwd=d, capture_output=True, text=True, timeout=600)
+    except subprocess.TimeoutExpired:
+        raise vlib.BuildError("coqc on the binary64 table timed out")
+    if p.returncode != 0:
+        raise vlib.BuildError("the binary64 table (Validate_Float_Points.float_table) could not be evaluated: " +
+                              p.stderr[-1500:])
+    tab = {}
+    for i, (a, n) in enumerate(chunks):
+        text = open(os.path.join(d, "ft_%02d.out" % i)).read()
+        nums = [int(x) for x in re.findall(r"-?\d+", text[text.index("["):text.rindex("]")])]
+        if len(nums) != 5 * n:
+            raise vlib.BuildError("binary64 table chunk %d has %d numbers, expected %d" % (i, len(nums), 5 * n))
+        for j in range(n):
+            N = a + j
+            mr, er, mp, ep, code = nums[5 * j:5 * j + 5]
+            row = {"ratio": math.ldexp(mr, er), "perp": math.ldexp(mp, ep),
+                   "r": [(code >> b) & 1 for b in (0, 1, 2)], "p": [(code >> b) & 1 for b in (3, 4, 5)],
+                   "c": [(code >> (6 + 3 * b)) & 7 for b in (0, 1, 2)]}
+            if row["ratio"] != 3.0 / N or row["perp"] != (N - 1) / 3.0:
+                raise vlib.BuildError("Python's binary64 arithmetic and Coq's primitive floats disagree at N = %d" % N)
+            tab[N] = row
+    return tab
+
+
+def three_points(f):
+    return [nextafter(f, False), f, nextafter(f, True)]
+
+
+def float_bound_cases(ftab, ns):
+    """wave 3: for EVERY N of the sweep the two computed bounds on the doubles that decide them: landmark_ratio at
+    next_down(3.0/N), 3.0/N, next_up(3.0/N) for both landmark methods, perplexity at the three points around
+    (N-1)/3.0; the expected verdict of the cell comes from the table Coq evaluated with primitive floats"""
+    cases = []
+    side = ["ulp-below", "at", "ulp-above"]
+    for N in ns:
+        row = ftab.get(N)
+        if row is None:
+            continue
+        for m in (4, 6):
+            for i, v in enumerate(three_points(row["ratio"])):
+                cases.append({"N": N, "mask": 7, "kws": with_kw(baseline(m, N), 12, "S", hexf(v)), "gen": "float_bound",
+                              "cell": [m, 12, "computed-lo-" + side[i]],
+                              "f64": {"kw": 12, "accept": row["r"][i], "landmarks": row["c"][i]}})
+        for i, v in enumerate(three_points(row["perp"])):
+            cases.append({"N": N, "mask": 7, "kws": with_kw(baseline(18, N), 19, "S", hexf(v)), "gen": "float_bound",
+                          "cell": [18, 19, "computed-hi-" + side[i]], "f64": {"kw": 19, "accept": row["p"][i]}})
+    return cases
 
 
 def cells_of(table, m):
@@ -193,13 +362,16 @@ def with_kw(kws, kw, ty, val):
     return [k for k in kws if k[0] != kw] + [P(kw, ty, val)]
 
 
-def scalar_points(b, strict, is_lower):
+def scalar_points(b, strict, is_lower, fl=None):
     """test values around a real bound b (Fraction): representable -> one ulp either side and the
-    bound itself; not representable -> 2^-20 (relative, at least absolute 2^-30) either side"""
+    bound itself; not representable -> 2^-20 (relative, at least absolute 2^-30) either side and (wave 3) the
+    binary64 value fl the C++ computes for it with its two neighbours (see exactify)"""
     fb = float(b)
     if Fraction(fb) == b:
         return [nextafter(fb, False), fb, nextafter(fb, True)]
     d = max(abs(fb) * 2.0 ** -20, 2.0 ** -30)
+    if isinstance(fl, float) and fl == fl and abs(fl) != float("inf"):
+        return [fl - d, nextafter(fl, False), fl, nextafter(fl, True), fl + d]
     return [fb - d, fb + d]
 
 
@@ -245,7 +417,11 @@ def cell_cases(doc, gen, rng, quick):
                             bi = _trunc(Fraction(b))
                             vals = [("I", v) for v in (bi - 1, bi, bi + 1)]
                         else:
-                            vals = [("S", hexf(v)) for v in scalar_points(Fraction(b), bnd[0], side == "lo")]
+                            try:
+                                fl = eval_bexpr_f64(bnd[1], N, FEATURE_DIM)
+                            except Exception:
+                                fl = None
+                            vals = [("S", hexf(v)) for v in scalar_points(Fraction(b), bnd[0], side == "lo", fl)]
                         for ty, v in vals:
                             cases.append({"N": N, "mask": 7, "kws": with_kw(local, c["kw"], ty, v),
                                           "gen": "cell", "cell": [m, c["kw"], side]})
@@ -255,6 +431,10 @@ def cell_cases(doc, gen, rng, quick):
                         for v in EXTREME:
                             cases.append({"N": N, "mask": 7, "kws": with_kw(local, c["kw"], "S", hexf(v)),
                                           "gen": "cell_extreme", "cell": [m, c["kw"], "extreme"]})
+                        # wave 3: NaN is inside no range; the infinities are beyond every bound
+                        for v in ("nan", "inf", "-inf"):
+                            cases.append({"N": N, "mask": 7, "kws": with_kw(local, c["kw"], "S", v),
+                                          "gen": "cell_nonfinite", "cell": [m, c["kw"], "nonfinite"]})
                     # a value well inside
                     if c["ty"] == "S" and c["lo"] is not None:
                         lo = Fraction(eval_bexpr(c["lo"][1], N, FEATURE_DIM, pr))
@@ -277,6 +457,62 @@ def callback_cases():
             for mask in range(8):
                 cases.append({"N": 8, "mask": mask, "kws": baseline(m, 8) + [P(9, "B", 0)], "gen": "callbacks"})
     return cases
+
+
+def parse_defaults(text):
+    """'kw=T:bits;...' of the table dump -> [[kw, T, value]] in request form"""
+    out = []
+    for item in text.split(";"):
+        if "=" not in item:
+            continue
+        k, v = item.split("=", 1)
+        ty, val = v.split(":", 1)
+        if ty == "I":
+            out.append(P(int(k), "I", parse_bits(val)))
+        elif ty == "S":
+            n, d = val.split("/")
+            out.append(P(int(k), "S", hexf(float(Fraction(parse_bits(n), parse_bits(d))))))
+        else:
+            out.append(P(int(k), ty, int(val)))
+    return out
+
+
+def explicit_default_cases(doc):
+    """wave 3: a keyword left unset against the same keyword set explicitly to its documented default (one at a time
+    and all of them at once): the outcome must be the same; the judge sees each request on its own, the pairing is
+    checked in check_pairs"""
+    cases = []
+    defs = parse_defaults(doc.get("defaults", ""))
+    for m in range(N_METHODS):
+        for N in (8, 100):
+            base = baseline(m, N)
+            have = {k[0] for k in base}
+            pair = "explicit_default:%d:%d" % (m, N)
+            cases.append({"N": N, "mask": 7, "kws": base, "gen": "explicit_default", "pair": pair})
+            extra = [d for d in defs if d[0] not in have]
+            if N == 8:
+                for d in extra:
+                    cases.append({"N": N, "mask": 7, "kws": base + [d], "gen": "explicit_default", "pair": pair})
+            cases.append({"N": N, "mask": 7, "kws": base + extra, "gen": "explicit_default", "pair": pair})
+    return cases
+
+
+def check_pairs(ctx, cases, impl):
+    """requests that must have the same outcome (same pair tag)"""
+    first = {}
+    for c, io in zip(cases, impl):
+        tag = c.get("pair")
+        if tag is None or io["outcome"] == "not-run":
+            continue
+        if tag not in first:
+            first[tag] = (c, io)
+            continue
+        c0, io0 = first[tag]
+        if canon_impl(io0) != canon_impl(io):
+            ctx.violation(dict(c, impl=io["outcome"], counters=io["cnt"], twin=c0["kws"], twin_impl=io0["outcome"]),
+                          "the same request with keywords left at their defaults gave %s, with the documented default "
+                          "values written out gave %s" % (io0["outcome"], io["outcome"]))
+            return
 
 
 def random_value(rng, kw, N, valid=True):
@@ -438,7 +674,7 @@ def model_line(case, old=False):
     parts = ["R", str(case["N"]), str(FEATURE_DIM), str(case["mask"]), "1" if old else "0", str(len(case["kws"]))]
     for kw, ty, v in case["kws"]:
         if ty == "S":
-            f = frac_of(v)
+            f = exactify(case, kw, v)
             parts += [str(kw), "S", bits(f.numerator), bits(f.denominator)]
         else:
             parts += [str(kw), ty, str(v)]
@@ -587,14 +823,29 @@ def expected_repr(v):
     return None
 
 
+def record_mismatch(ctx, stats, shown, detail):
+    """a model/implementation disagreement: recorded (at most 60 of them), never a reason to stop judging the
+    remaining requests against the documented specification"""
+    stats["mismatches"] = stats.get("mismatches", 0) + 1
+    if stats["mismatches"] <= 60:
+        ctx.mismatch(shown, detail)
+
+
 def judge(ctx, case, io, mo, stats):
-    """verdict logic for one case; returns True if something was recorded"""
+    """verdict logic for one case; returns True if a VIOLATION was recorded"""
     if io["outcome"] == "not-run":
         return False
     ci = canon_impl(io)
     cnt = io["cnt"]
     spec = mo["spec"]
     shown = dict(case, impl=io["outcome"], counters=cnt)
+    # wave 3: on the deciding doubles of a computed bound the documented verdict comes from Coq's primitive floats; the
+    # exact specification (fed through exactify) must say the same, or the two readings of the documentation differ
+    f64 = case.get("f64")
+    if f64 and case["N"] >= 4 and (spec == "none") != bool(f64["accept"]):
+        record_mismatch(ctx, stats, shown, "binary64 table (Coq primitive floats) says the documented check %s this "
+                        "value, the exact specification says %s" % ("accepts" if f64["accept"] else "rejects", spec))
+        return False
     # 1. the documented specification applied to the implementation's own output
     if ci in ("harness-died", "garbage"):
         ctx.violation(shown, "the harness produced no result for this request (%s): %s" % (ci, io.get("err", "")))
@@ -617,8 +868,9 @@ def judge(ctx, case, io, mo, stats):
             stats["post_validation_crash"] = stats.get("post_validation_crash", 0) + 1
     # explicit values win, defaults fill: the debug echo after merge(defaults)
     if io["echo"] and spec not in ("multiple_parameter",):
+        skip = {k[0] for k in case["kws"] if k[1] == "S" and nonfinite(k[2])}     # echoed as nan / inf
         for kw, v in mo["merged"].items():
-            if kw >= len(KW_NAMES):
+            if kw >= len(KW_NAMES) or kw in skip:
                 continue
             want = expected_repr(v)
             got = io["echo"].get(KW_NAMES[kw])
@@ -635,14 +887,13 @@ def judge(ctx, case, io, mo, stats):
         stats["echo_checked"] = stats.get("echo_checked", 0) + 1
     # 2. model against implementation
     if ci in VALIDATION_EXC and cnt["cn"] != mo["trace"].count("cn"):
-        ctx.mismatch(shown, "the cancel function was called %d time(s) before the throw, the model says %d" % (
-            cnt["cn"], mo["trace"].count("cn")))
-        return True
+        record_mismatch(ctx, stats, shown, "the cancel function was called %d time(s) before the throw, the model says "
+                        "%d" % (cnt["cn"], mo["trace"].count("cn")))
+        return False
     em = expected_from_model(mo, stopf_of(case))
     if em != ci:
-        ctx.mismatch(shown, "model of the generated tables says %s (trace %s), tapkee::embed gave %s" % (
+        record_mismatch(ctx, stats, shown, "model of the generated tables says %s (trace %s), tapkee::embed gave %s" % (
             em, ",".join(mo["trace"]), io["outcome"]))
-        return True
     return False
 
 
@@ -658,6 +909,7 @@ def model_disagrees_with_spec(mo):
 def evaluate(ctx, exe, mexe, cases, stats):
     impl = run_impl(ctx, exe, cases)
     model = run_model(ctx, mexe, cases)
+    check_pairs(ctx, cases, impl)
     bad = 0
     for c, io, mo in zip(cases, impl, model):
         stats["outcomes"][canon_impl(io)] = stats["outcomes"].get(canon_impl(io), 0) + 1
@@ -974,9 +1226,12 @@ def self_test_translator(ctx, quick):
     return "translator self-test: %d mutations, %d missed" % (n, len(failures))
 
 
-def build_cases(ctx, doc, gen, rng, quick):
+def build_cases(ctx, doc, gen, rng, quick, ftab=None):
     cases = []
     cases += cell_cases(doc, gen, rng, quick)
+    if ftab:
+        cases += float_bound_cases(ftab, range(3, (300 if quick else 4096) + 1))
+    cases += explicit_default_cases(doc)
     cases += callback_cases()
     cases += wrong_type_cases(rng, quick)
     cases += duplicate_cases(rng, quick)
@@ -1023,11 +1278,13 @@ def run(ctx):
     exe = join_harness()                    # a BuildError here is reported as "no longer shown" by check.py
     mark("harness built")
     doc, gen = load_tables(ctx, mexe)
+    ftab = load_float_table(ctx, 300 if ctx.quick else 4096)
+    mark("binary64 table")
     stats = {"outcomes": {}}
     cases = []
     for name, c in ctx.corpus():
         cases.append(dict(c, gen="corpus"))
-    cases += build_cases(ctx, doc, gen, rng, ctx.quick)
+    cases += build_cases(ctx, doc, gen, rng, ctx.quick, ftab)
     n = evaluate(ctx, exe, mexe, cases, stats)
     mark("cases run")
     # wave 2: the container and the predicate objects driven directly, against the generated bodies
@@ -1043,7 +1300,7 @@ def run(ctx):
         # search phase.  (a) model-guided: the model over the REGENERATED tables is cheap; requests on
         # which it disagrees with the documented specification are where a changed table entry shows,
         # so those run on the real library first; (b) the thorough case set against the specification.
-        more = build_cases(ctx, doc, gen, rng, False) if ctx.quick else random_cases(rng, 30000)
+        more = build_cases(ctx, doc, gen, rng, False, None) if ctx.quick else random_cases(rng, 30000)
         rng.shuffle(more)
         try:
             mm = run_model(ctx, mexe, more)
@@ -1115,7 +1372,10 @@ def replay(ctx, case):
     sys.path.insert(0, os.path.join(ctx.verif, "translate"))
     mexe = ctx.extract()
     exe = build_harness(ctx, sanitize=False)()
+    load_tables(ctx, mexe)                  # sets DOC: model_line hands a computed bound over exactly (exactify)
     c = {"N": case["N"], "mask": case["mask"], "kws": case["kws"], "gen": "replay"}
+    if "f64" in case:
+        c["f64"] = case["f64"]
     stats = {"outcomes": {}}
     io = run_impl(ctx, exe, [c])[0]
     mo = run_model(ctx, mexe, [c])[0]
